@@ -48,6 +48,7 @@ pub fn replay(ctx: &mut Ctx, v: &Value) -> Result<(), String> {
     match kind {
         "doc" | "junk" if ctx.prop == "C05" || ctx.prop == "C06" => decision_replay(ctx, v),
         "doc" | "junk" => docs::replay(ctx, v),
+        "doc-cli" => docs::replay_cli(ctx, v),
         "line" => lines::replay(ctx, v),
         "list" => listing::replay(ctx, v),
         "list-law" => listing::replay_law(ctx, v),
